@@ -207,7 +207,8 @@ def parse_items(src, toks_all=None, ct=None, lo=0, hi=None):
             it = Item(kind=kw, name='', start=0, decl_start=ct[decl].start, end=0)
             it.start = _attr_start(src, toks_all, ct[decl].start)
             attr_text = src[it.start:ct[decl].start]
-            it.cfg_test = 'cfg(test)' in attr_text
+            # doc comments may quote `#[cfg(test)]` (e.g. shim sync_dir): only real attribute text counts
+            it.cfg_test = 'cfg(test)' in '\n'.join(l for l in attr_text.split('\n') if not l.lstrip().startswith('//'))
             if kw == 'impl':
                 # header up to body '{'
                 k = j + 1
